@@ -15,7 +15,6 @@ type (
 	Month      = rt.Month
 	Weekday    = rt.Weekday
 	Location   = rt.Location
-	Timer      = rt.Timer
 	ParseError = rt.ParseError
 )
 
@@ -61,17 +60,72 @@ func Now() Time {
 func Since(t Time) Duration { return Now().Sub(t) }
 func Until(t Time) Duration { return t.Sub(Now()) }
 
+// Sleep: with captured timers a sleeper waits for the harness to fire it (a janitor built on Sleep
+// is driven like one built on a Ticker); with only the virtual clock on it returns at once.
 func Sleep(d Duration) {
+	if capture.Load() {
+		<-NewTimer(d).C
+		return
+	}
 	if virtual.Load() {
 		return
 	}
 	rt.Sleep(d)
 }
 
-func After(d Duration) <-chan Time          { return rt.After(d) }
-func AfterFunc(d Duration, f func()) *Timer { return rt.AfterFunc(d, f) }
-func NewTimer(d Duration) *Timer            { return rt.NewTimer(d) }
-func Tick(d Duration) <-chan Time           { return NewTicker(d).C }
+func After(d Duration) <-chan Time { return NewTimer(d).C }
+func Tick(d Duration) <-chan Time  { return NewTicker(d).C }
+
+// Timer mirrors time.Timer. In capture mode it never fires by itself: it is registered like a ticker
+// (Period = its duration) and fired by the harness.
+type Timer struct {
+	C    <-chan Time
+	real *rt.Timer
+	cap  *CapturedTicker
+}
+
+func NewTimer(d Duration) *Timer {
+	if capture.Load() {
+		ct := &CapturedTicker{Period: d, c: make(chan Time), timer: true}
+		capMu.Lock()
+		captured = append(captured, ct)
+		capMu.Unlock()
+		return &Timer{C: ct.c, cap: ct}
+	}
+	r := rt.NewTimer(d)
+	return &Timer{C: r.C, real: r}
+}
+
+func AfterFunc(d Duration, f func()) *Timer {
+	if capture.Load() {
+		t := NewTimer(d)
+		go func() {
+			<-t.cap.c
+			f()
+		}()
+		return t
+	}
+	return &Timer{real: rt.AfterFunc(d, f)}
+}
+
+func (t *Timer) Stop() bool {
+	if t.cap != nil {
+		was := !t.cap.stopped.Load()
+		t.cap.stopped.Store(true)
+		return was
+	}
+	return t.real.Stop()
+}
+
+func (t *Timer) Reset(d Duration) bool {
+	if t.cap != nil {
+		was := !t.cap.stopped.Load()
+		t.cap.Period = d
+		t.cap.stopped.Store(false)
+		return was
+	}
+	return t.real.Reset(d)
+}
 
 // ---- virtual clock control (harness side) ----
 
@@ -95,6 +149,7 @@ type CapturedTicker struct {
 	Period  Duration
 	c       chan Time
 	stopped atomic.Bool
+	timer   bool // created by NewTimer / After / AfterFunc / Sleep
 }
 
 var (
